@@ -33,6 +33,7 @@ type CallEvent struct {
 	Desigs []string // all designators this call answers to
 	Args   []Term   // receiver first for invoke-mode calls
 	Res    []Term
+	ResTys []types.Type
 	Seq    int
 }
 
@@ -85,6 +86,7 @@ type State struct {
 	PC           []Term
 	Mem          map[string]Term // leaf memory per type key
 	MemSort      map[string]Sort
+	MemEpoch     map[string]int
 	Ghost        map[string]Term // named ghost scalars / arrays
 	Calls        []CallEvent
 	CallCnt      map[string]Term // designator -> count term
@@ -101,16 +103,18 @@ type State struct {
 	Volatile     []Term
 	Spawned      bool
 	LocksTouched []Term
+	OwnedClose   []Term
 }
 
 func NewState() *State {
-	return &State{Mem: map[string]Term{}, MemSort: map[string]Sort{}, Ghost: map[string]Term{}, CallCnt: map[string]Term{}, Closures: map[string]*Closure{}, Derivs: map[string]*MemDeriv{}, Fresh: map[string]bool{}}
+	return &State{Mem: map[string]Term{}, MemSort: map[string]Sort{}, MemEpoch: map[string]int{}, Ghost: map[string]Term{}, CallCnt: map[string]Term{}, Closures: map[string]*Closure{}, Derivs: map[string]*MemDeriv{}, Fresh: map[string]bool{}}
 }
 
 func (s *State) Clone() *State {
 	n := &State{
 		PC:           append([]Term(nil), s.PC...),
 		Mem:          make(map[string]Term, len(s.Mem)),
+		MemEpoch:     make(map[string]int, len(s.MemEpoch)),
 		MemSort:      s.MemSort, // append-only, shared
 		Ghost:        make(map[string]Term, len(s.Ghost)),
 		Calls:        append([]CallEvent(nil), s.Calls...),
@@ -127,9 +131,13 @@ func (s *State) Clone() *State {
 		Volatile:     append([]Term(nil), s.Volatile...),
 		Spawned:      s.Spawned,
 		LocksTouched: append([]Term(nil), s.LocksTouched...),
+		OwnedClose:   s.OwnedClose,
 	}
 	for k, v := range s.Mem {
 		n.Mem[k] = v
+	}
+	for k, v := range s.MemEpoch {
+		n.MemEpoch[k] = v
 	}
 	for k, v := range s.Ghost {
 		n.Ghost[k] = v
